@@ -346,8 +346,10 @@ PROPS['C17'] = {
                    'that satisfy the accepted tree of the text, by C01 / C03 / C04 / C14 the result of model_check_formula_dirty): summarize_results / print_results_full receive (formula i, its result), '
                    'and build_result_archive receives a map with exactly one entry per formula, entry "formula-i" holding the result of line i of the formula list it archives (archive_ok). '
                    'These statements are the PRECONDITIONS of the (unverified) output functions, so every call site has to prove them. A formula that is not in the token language, not derivable from '
-                   'the grammar or badly scoped makes the function return Err (reported as a message by main) and no index, unwrap or arithmetic operation of the function can panic.'),
-    'level_note': ('NOT decided: the process level (clap argument parsing, reading the model and formula files, load_formulae comment / blank line handling, the text written to stdout, the bytes of the zip archive, '
+                   'the grammar or badly scoped makes the function return Err (reported as a message by main) and no index, unwrap or arithmetic operation of the function can panic. '
+                   'load_formulae (src/load_inputs.rs) is proved to return exactly the lines of the file that, after removing surrounding white space, are neither empty nor start with #, '
+                   'trimmed, in file order (formulae_of(lines_of(content)); lines / trim / starts_with(char) modelled from the std documentation).'),
+    'level_note': ('NOT decided: the process level (clap argument parsing, reading the model file, main(), the text written to stdout, the bytes of the zip archive, '
                    'reading a context archive back) and the extended mode (context archive given: the contract requires context_archive_path is None; that branch is type-checked only). '
                    'Preconditions: the network has at least one variable; formula texts shorter than 2^32 characters whose trees are small (as for the library entry points) and need at most 65535 variable sets '
                    '(`max_num_hctl_vars as u16`). ASSUMED: SymbolicContext::new succeeds on the loaded network; get_extended_symbolic_graph(bn, k) returns a graph of that network with k spare variable sets and the '
@@ -357,6 +359,7 @@ PROPS['C17'] = {
     'trusted': _EVAL_TRUSTED + ['prelude/tool_model.rs: SystemTime::now, BooleanNetwork::to_string, SymbolicContext::new (assumed Ok), Result::map_err (R-maperr), derive(Clone, Copy) of PrintOptions',
                 'output functions print_if_allowed, summarize_results, print_results_full, build_result_archive, load_bdd_bundle are NOT verified (stdout, zip, file system); their preconditions carry the claim',
                 'R-printargs (the text argument of print_if_allowed is opaque), R-enumloop (for (i, x) in v.iter().enumerate() as the index loop), R-callback (local progress observer removed), R-fmt-val',
-                'axiom_dec_digits_inj: the decimal rendering of usize by format! is injective (distinct indices give distinct archive keys)'],
+                'axiom_dec_digits_inj: the decimal rendering of usize by format! is injective (distinct indices give distinct archive keys)',
+                'prelude/tool_model.rs: std::fs::read_to_string returns the file content, str::lines (split at \\n or \\r\\n, final terminator optional), str::trim (Unicode White_Space on both ends), str::starts_with(char) (R-startswith), Lines::next'],
     'assumptions': _EVAL_ASSUME,
 }
